@@ -632,6 +632,17 @@ fn newtype_graphs(cx: &Ctx) -> u64 {
             jobs.push(format!("newtype Na = {a};\nnewtype Nb = {b};\nnewtype Nc = Nb;\nstruct Uses {{\n    m @ 1 = map<Nx -> u8>;\n    s @ 2 = set<dep::Nope>;\n}}\n"));
         }
     }
+    // newtype chains that cross into the imported schema and local newtypes that carry the name of
+    // an imported one (a chain must be followed in the schema in which each link was found)
+    for id in ["dep::ExtChain", "dep::ExtN", "u8"] {
+        for shadow in ["Id", "u8", "string", "dep::ExtChain", "dep::ExtN", "option<Id>"] {
+            for name in ["ExtN", "ExtChain", "Ext"] {
+                for uses in ["", "struct Uses {\n    s @ 1 = set<Id>;\n    m @ 2 = map<Id -> u8>;\n}\n", "struct Uses {\n    a @ 1 = Id;\n}\n"] {
+                    jobs.push(format!("import dep;\nnewtype Id = {id};\nnewtype {name} = {shadow};\n{uses}"));
+                }
+            }
+        }
+    }
     let n = jobs.len() as u64;
     jobs.par_iter().for_each(|t| {
         for e in [Env::Resolvable, Env::Empty, Env::DepRecursive] {
